@@ -100,6 +100,9 @@ func genIndex(rng *rand.Rand, sha256 bool) desync.Index {
 		if rng.Intn(6) == 0 {
 			size = max
 		}
+		if i > 0 && rng.Intn(12) == 0 {
+			size = 0 // an empty chunk: representable (two equal end offsets) everywhere but in first place
+		}
 		var id desync.ChunkID
 		rng.Read(id[:])
 		idx.Chunks = append(idx.Chunks, desync.IndexChunk{ID: id, Start: start, Size: size})
